@@ -124,20 +124,25 @@ int_atomic!(AtomicU32, u32, false);
 int_atomic!(AtomicU64, u64, false);
 int_atomic!(AtomicUsize, usize, false);
 
-/// A failed acquisition attempt on the lock word is followed by a loom yield:
-/// retrying at once is bound to fail again (nobody else ran), so the schedules
-/// this prunes are stutter-equivalent to the ones kept; without it the
-/// back-to-back retries of `spin_cond` (no yield between them when the machine
-/// reports more than one hardware thread) blow the schedule tree up.  The
-/// yield is loom's own, not the shim's `yield_now`, so monitors do not see it.
-fn spin_failed() {
-    loom::thread::yield_now();
-}
-
-/// Lazily created loom `AtomicBool` with a `const fn new`.
+/// Lazily created loom `AtomicBool` with a `const fn new` — in kanal this is
+/// the word of the spin lock.
+///
+/// Waiting made visible: a failed acquisition attempt (failed CAS, or a swap
+/// that found the word already set) outside a no-wait region *blocks* the
+/// calling loom thread until the word is written again.  Retrying while
+/// nobody has written the word is bound to fail again, so the schedules this
+/// removes are stutter-equivalent to the ones kept, and the attempt still
+/// returns its failure afterwards (a delay is always a legal behaviour).
+/// Without it two spinners can alternate forever at yield points under loom's
+/// unfair scheduler (an infinite schedule tree), and the back-to-back retries
+/// of `spin_cond` blow the tree up.  Registration happens with no scheduling
+/// point after the failed RMW (which read the latest value), so a release
+/// cannot slip in between: no lost wake-up.  Inside a no-wait region
+/// (`try_lock` of the realtime operations, C17's T role) nothing blocks.
 pub struct AtomicBool {
     init: bool,
     cell: OnceLock<loom::sync::atomic::AtomicBool>,
+    waiters: std::sync::Mutex<Vec<loom::thread::Thread>>,
 }
 
 impl std::fmt::Debug for AtomicBool {
@@ -151,6 +156,7 @@ impl AtomicBool {
         AtomicBool {
             init: v,
             cell: OnceLock::new(),
+            waiters: std::sync::Mutex::new(Vec::new()),
         }
     }
     #[track_caller]
@@ -159,48 +165,78 @@ impl AtomicBool {
         self.cell
             .get_or_init(|| loom::sync::atomic::AtomicBool::new(self.init))
     }
+    fn failed(&self) {
+        if crate::ctl::in_nowait_lock() {
+            return;
+        }
+        self.waiters.lock().unwrap().push(loom::thread::current());
+        loom::thread::park();
+    }
+    fn written(&self) {
+        let ws: Vec<_> = std::mem::take(&mut *self.waiters.lock().unwrap());
+        for w in ws {
+            w.unpark();
+        }
+    }
     #[track_caller]
     pub fn load(&self, o: Ordering) -> bool {
         self.a().load(o)
     }
     #[track_caller]
     pub fn store(&self, v: bool, o: Ordering) {
-        self.a().store(v, o)
+        self.a().store(v, o);
+        self.written();
     }
     #[track_caller]
     pub fn swap(&self, v: bool, o: Ordering) -> bool {
         let r = self.a().swap(v, o);
-        if r && v {
-            spin_failed();
+        if r == v {
+            if v {
+                self.failed();
+            }
+        } else {
+            self.written();
         }
         r
     }
     #[track_caller]
     pub fn compare_exchange(&self, c: bool, n: bool, s: Ordering, f: Ordering) -> Result<bool, bool> {
         let r = self.a().compare_exchange(c, n, s, f);
-        if r.is_err() {
-            spin_failed();
+        match r {
+            Ok(_) => self.written(),
+            Err(_) => self.failed(),
         }
         r
     }
     #[track_caller]
     pub fn compare_exchange_weak(&self, c: bool, n: bool, s: Ordering, f: Ordering) -> Result<bool, bool> {
         let r = self.a().compare_exchange_weak(c, n, s, f);
-        if r.is_err() {
-            spin_failed();
+        match r {
+            Ok(_) => self.written(),
+            Err(_) => self.failed(),
         }
         r
     }
     #[track_caller]
     pub fn fetch_or(&self, v: bool, o: Ordering) -> bool {
-        self.a().fetch_or(v, o)
+        let r = self.a().fetch_or(v, o);
+        if r && v {
+            self.failed();
+        } else {
+            self.written();
+        }
+        r
     }
     #[track_caller]
     pub fn fetch_and(&self, v: bool, o: Ordering) -> bool {
-        self.a().fetch_and(v, o)
+        let r = self.a().fetch_and(v, o);
+        self.written();
+        r
     }
     #[track_caller]
     pub fn fetch_xor(&self, v: bool, o: Ordering) -> bool {
-        self.a().fetch_xor(v, o)
+        let r = self.a().fetch_xor(v, o);
+        self.written();
+        r
     }
 }
